@@ -45,6 +45,7 @@ var (
 	reLine    = regexp.MustCompile(`^(\d+)\s+(.*)$`)
 	reCall    = regexp.MustCompile(`^([a-z_0-9]+)\((.*)$`)
 	reResumed = regexp.MustCompile(`^<\.\.\. ([a-z_0-9]+) resumed>(.*)$`)
+	reRet     = regexp.MustCompile(`\)\s+= `)
 	reFD      = regexp.MustCompile(`^(?:-?\d+|AT_FDCWD)<(.*)>$`)
 )
 
@@ -58,6 +59,10 @@ func parseStrace(log []byte) (evs []sysEvent, unparsed int) {
 		m := reLine.FindStringSubmatch(sc.Text())
 		if m == nil {
 			unparsed++
+
+			if straceDebug {
+				fmt.Println("UNPARSED-LINE", sc.Text())
+			}
 
 			continue
 		}
@@ -93,11 +98,16 @@ func parseStrace(log []byte) (evs []sysEvent, unparsed int) {
 		body := c[2]
 		ret := ""
 
-		if i := strings.LastIndex(body, ") = "); i >= 0 {
-			ret = body[i+4:]
-			body = body[:i]
+		if loc := reRet.FindAllStringIndex(body, -1); len(loc) > 0 {
+			last := loc[len(loc)-1]
+			ret = body[last[1]:]
+			body = body[:last[0]]
 		} else {
 			unparsed++
+
+			if straceDebug {
+				fmt.Println("UNPARSED-NORET", rest)
+			}
 
 			continue
 		}
@@ -255,7 +265,7 @@ type straceFinding struct {
 // no-follow probes outside, events seen after the first marker, and notes.
 var straceDebug = os.Getenv("C26_DEBUG") != ""
 
-func judgeTrace(l *layout, evs []sysEvent, src string) (found []straceFinding, probes, judged, startupOutside, unknown int) {
+func judgeTrace(l *layout, evs []sysEvent, src string) (found []straceFinding, probes, judged, startupOutside, unknown, inArenaOK int) {
 	m := &fsModel{links: map[string]string{}, cwd: l.cwd}
 	for k, v := range l.links {
 		m.links[k] = v
@@ -357,6 +367,10 @@ func judgeTrace(l *layout, evs []sysEvent, src string) (found []straceFinding, p
 			if !inArena(res) || allowed(res) {
 				if cell >= 0 {
 					judged++
+
+					if inArena(res) {
+						inArenaOK++
+					}
 				}
 
 				continue
@@ -384,7 +398,7 @@ func judgeTrace(l *layout, evs []sysEvent, src string) (found []straceFinding, p
 		}
 	}
 
-	return found, probes, judged, startupOutside, unknown
+	return found, probes, judged, startupOutside, unknown, inArenaOK
 }
 
 type straceCell struct {
@@ -421,6 +435,7 @@ type tracedRun struct {
 	stdout                                     string
 	evs                                        int
 	unparsed, unknown, judged, probes, startup int
+	inArenaOK                                  int
 	markers                                    int
 	found                                      map[int][]straceFinding
 	changed, leaked                            []string
@@ -445,7 +460,7 @@ func runTraced(l *layout, bin *binRunner, prog, tag string) tracedRun {
 	defer os.Remove(src)
 	defer os.Remove(logp)
 
-	c := exec.Command("strace", "-f", "-y", "-s", "512", "-e", "trace=%file,fchdir", "-o", logp, bin.bin, "run", "--sandbox=true", src)
+	c := exec.Command("strace", "-f", "--seccomp-bpf", "-y", "-s", "512", "-e", "trace=%file,fchdir", "-o", logp, bin.bin, "run", "--sandbox=true", src)
 	c.Env = bin.env(l)
 	c.Dir = l.cwd
 
@@ -479,11 +494,11 @@ func runTraced(l *layout, bin *binRunner, prog, tag string) tracedRun {
 	}
 
 	evs, unparsed := parseStrace(logb)
-	found, probes, judged, startup, unknown := judgeTrace(l, evs, src)
+	found, probes, judged, startup, unknown, inOK := judgeTrace(l, evs, src)
 	post, _ := l.snapshot()
 
 	tr.stdout = so.String()
-	tr.evs, tr.unparsed, tr.unknown, tr.judged, tr.probes, tr.startup = len(evs), unparsed, unknown, judged, probes, startup
+	tr.evs, tr.unparsed, tr.unknown, tr.judged, tr.probes, tr.startup, tr.inArenaOK = len(evs), unparsed, unknown, judged, probes, startup, inOK
 	tr.changed = snapDiff(l.pristineOut, post)
 	tr.leaked = l.variant(l.vid).leaked(tr.stdout)
 	tr.found = map[int][]straceFinding{}
@@ -597,7 +612,7 @@ func TestC26Strace(t *testing.T) {
 	}
 
 	nRuns := vh.N(40, 1000)
-	nWorkers := 4
+	nWorkers := 6
 	cellsPerRun := 8
 	known := vh.KnownKeys("C26")
 
@@ -654,6 +669,7 @@ func TestC26Strace(t *testing.T) {
 			r.Count("syscalls.unparsed_lines", int64(tr.unparsed))
 			r.Count("syscalls.unknown_name", int64(tr.unknown))
 			r.Count("paths.judged_after_first_marker", int64(tr.judged))
+			r.Count("paths.in_arena_inside_root_or_home", int64(tr.inArenaOK))
 			r.Count("paths.nofollow_probes_outside", int64(tr.probes))
 			r.Count("paths.startup_outside_root", int64(tr.startup))
 			r.Count("markers.seen", int64(tr.markers))
